@@ -312,7 +312,7 @@ func c25Chunk(p *an.Prog, r *an.R) {
 			}
 			r.Check(okSet, "C25.R2", srv+".gRPCChunkSender/sent-flag-set-when-attached", as.Pos(), "the flag is set to true on the path that attaches the stats", "the sent-flag is not set on the path that attaches the statistics: every chunk of the event carries them again")
 			// the flag is declared false inside the per-event closure (not shared across events)
-			declOK := false
+			declOK, perChunk := false, false
 			ast.Inspect(d.Decl.Body, func(m ast.Node) bool {
 				a2, ok := m.(*ast.AssignStmt)
 				if ok && a2.Tok == token.DEFINE && len(a2.Lhs) == 1 {
@@ -320,11 +320,18 @@ func c25Chunk(p *an.Prog, r *an.R) {
 						if tv := info.Types[a2.Rhs[0]]; tv.Value != nil && tv.Value.String() == "false" {
 							declOK = true
 						}
+						// ... and outlives the single chunk: a flag declared inside the closure that runs once per
+						// chunk starts as false for every chunk (the closure that receives the event itself is fine)
+						if a2.Pos() >= lit.Pos() && a2.End() <= lit.End() && !c25TakesEvent(info, lit) {
+							perChunk = true
+						}
 					}
 				}
 				return true
 			})
 			r.Check(declOK, "C25.R2", srv+".gRPCChunkSender/sent-flag-starts-false", as.Pos(), "the flag starts as false for each event", "the sent-flag is not (re)initialised to false for each event")
+			r.Check(!perChunk, "C25.R2", srv+".gRPCChunkSender/sent-flag-outlives-the-chunk", as.Pos(), "the flag is declared outside the per-chunk closure, so it is still set when the next chunk of the event is sent",
+				"the sent-flag is declared inside the closure that runs once per chunk: it is false again for every chunk, so each chunk of a multi-chunk event carries the event's statistics and a client that adds them up sees them multiplied")
 		}
 		return true
 	})
@@ -606,4 +613,18 @@ func c25Wrappers(p *an.Prog, r *an.R) {
 		})
 	})
 	r.Floor("C25.R6.pass-through-wrappers", 5, n)
+}
+
+// c25TakesEvent: the function literal receives the search event (a parameter of type *zoekt.SearchResult), i.e.
+// it runs once per event.
+func c25TakesEvent(info *types.Info, lit *ast.FuncLit) bool {
+	if lit.Type.Params == nil {
+		return false
+	}
+	for _, f := range lit.Type.Params.List {
+		if t := info.TypeOf(f.Type); t != nil && strings.HasSuffix(t.String(), "zoekt.SearchResult") {
+			return true
+		}
+	}
+	return false
 }
